@@ -807,3 +807,74 @@ have h1 : RR ≠ 0 := ne_of_gt hR
 have h2 : epsr ≠ 0 := ne_of_gt he
 field_simp
 """)
+
+
+# ---- a sum against a Kronecker delta picks one term (numpy.diag(v) @ B = rows of B scaled; A @ numpy.eye = A) ---------------------
+lemma("sum_kronecker",
+      types={"n": "int", "c": "int", "x": "real", "G": "arr1"},
+      hyps=[("hc", "0 <= c and c < n")],
+      concl="Sum(d, range(0, n), ite(c == d, x, 0)*G[d]) == x*G[c] and Sum(d, range(0, n), G[d]*ite(d == c, x, 0)) == G[c]*x",
+      proof="""
+have hmem : c ∈ Finset.Ico (0:ℤ) n := Finset.mem_Ico.mpr ⟨hc.1, hc.2⟩
+constructor
+· rw [Finset.sum_eq_single c]
+  · simp
+  · intro b _ hb
+    have : ¬ (c = b) := fun h => hb h.symm
+    simp [this]
+  · intro h; exact absurd hmem h
+· rw [Finset.sum_eq_single c]
+  · simp
+  · intro b _ hb
+    simp [hb]
+  · intro h; exact absurd hmem h
+""")
+
+
+# ---- product of two matrices with the same eigenvectors: S diag(e1) S^-1 . S diag(e2) S^-1 = S diag(e1 e2) S^-1 ---------------------
+lemma("spectral_compose",
+      types={"n": "int", "SS": "arr2", "S1": "arr2", "A": "arr2", "B": "arr2", "e1": "arr1", "e2": "arr1"},
+      hyps=[("hinv", "forall((c, d), (range(0, n), range(0, n)), Sum(m, range(0, n), S1[c,m]*SS[m,d]) == ite(c == d, 1, 0))"),
+            ("hA", "forall((a, m), (range(0, n), range(0, n)), A[a,m] == Sum(c, range(0, n), SS[a,c]*e1[c]*S1[c,m]))"),
+            ("hB", "forall((m, b), (range(0, n), range(0, n)), B[m,b] == Sum(d, range(0, n), SS[m,d]*e2[d]*S1[d,b]))")],
+      concl="forall((a, b), (range(0, n), range(0, n)), Sum(m, range(0, n), A[a,m]*B[m,b]) == "
+            "Sum(c, range(0, n), SS[a,c]*(e1[c]*e2[c])*S1[c,b]))",
+      proof="""
+intro a b ha0 han hb0 hbn
+have step1 : ∑ m ∈ Finset.Ico (0:ℤ) n, A a m * B m b
+    = ∑ m ∈ Finset.Ico (0:ℤ) n, (∑ c ∈ Finset.Ico (0:ℤ) n, SS a c * e1 c * S1 c m)
+        * (∑ d ∈ Finset.Ico (0:ℤ) n, SS m d * e2 d * S1 d b) := by
+  apply Finset.sum_congr rfl
+  intro m hm
+  have hm' := Finset.mem_Ico.mp hm
+  rw [hA a m ha0 han hm'.1 hm'.2, hB m b hm'.1 hm'.2 hb0 hbn]
+rw [step1]
+have step2 : ∑ m ∈ Finset.Ico (0:ℤ) n, (∑ c ∈ Finset.Ico (0:ℤ) n, SS a c * e1 c * S1 c m)
+        * (∑ d ∈ Finset.Ico (0:ℤ) n, SS m d * e2 d * S1 d b)
+    = ∑ c ∈ Finset.Ico (0:ℤ) n, ∑ d ∈ Finset.Ico (0:ℤ) n,
+        (SS a c * e1 c) * (e2 d * S1 d b) * (∑ m ∈ Finset.Ico (0:ℤ) n, S1 c m * SS m d) := by
+  simp_rw [Finset.sum_mul_sum, Finset.mul_sum]
+  rw [Finset.sum_comm]
+  apply Finset.sum_congr rfl
+  intro c _
+  rw [Finset.sum_comm]
+  apply Finset.sum_congr rfl
+  intro d _
+  apply Finset.sum_congr rfl
+  intro m _
+  ring
+rw [step2]
+apply Finset.sum_congr rfl
+intro c hc
+have hc' := Finset.mem_Ico.mp hc
+rw [Finset.sum_eq_single c]
+· rw [hinv c c hc'.1 hc'.2 hc'.1 hc'.2]
+  simp
+  ring
+· intro d hd hdc
+  have hd' := Finset.mem_Ico.mp hd
+  rw [hinv c d hc'.1 hc'.2 hd'.1 hd'.2]
+  have : ¬ (c = d) := fun h => hdc h.symm
+  simp [this]
+· intro h; exact absurd hc h
+""")
